@@ -3031,6 +3031,10 @@ class Num:
                 if b not in st.notes.get("rotated", ()):
                     continue  # back edge: covered by the havocked header state
                 exit_only = True
+                # what the rule declared (with its reason) to only grow has not shrunk during this iteration either
+                for k_, a0_ in st.notes.get("loop_atoms", {}).get(b, {}).items():
+                    if self.hooks is not None and (self.fn.name, k_) in getattr(self.hooks, "monotone_keys", ()) and st.env.get(k_) is not None:
+                        st.add(a0_ - st.env[k_])
             B = fn.blocks[b]
             states = [st]
             if want_exit and b == fn.exit:
